@@ -133,7 +133,24 @@ def gen_plans(n, seed):
     return plans
 
 
-def write_cfg(scratch: Path, name, n, ws, typed, plans, named=(True,)):
+NAMINGS = ("suffix", "suffixlast", "prefix", "prefixlast", "dotted")
+
+
+def prepare_namings(in_dir, recs):
+    """input records for every naming scheme TLC explored, one directory per (scheme, n)"""
+    for naming, names in {(r["naming"], tuple(r["names"])) for r in recs if r["naming"] != "plain"}:
+        d = Path(in_dir) / f"{naming}-{len(names)}"
+        d.mkdir(exist_ok=True)
+        impl_C14.prepare_named_inputs(d, names)
+
+
+def in_dir_of(in_dir, job):
+    if job.get("naming", "plain") == "plain":
+        return str(in_dir)
+    return str(Path(in_dir) / f"{job['naming']}-{len(job['names'])}")
+
+
+def write_cfg(scratch: Path, name, n, ws, typed, plans, named=(True,), namings=("plain",)):
     """-> (cfg path relative to specs/, PLAN_FILE)"""
     text = (
         "SPECIFICATION Spec\nCONSTANTS\n"
@@ -141,6 +158,7 @@ def write_cfg(scratch: Path, name, n, ws, typed, plans, named=(True,)):
         f"  WriterTyped = {{{', '.join('TRUE' if t else 'FALSE' for t in typed)}}}\n"
         f"  Named = {{{', '.join('TRUE' if t else 'FALSE' for t in named)}}}\n"
         "  Reversed = {FALSE}\n  FnStep = 2\n  Isolated = TRUE\n"
+        f"  Namings = {tla_value(set(namings))}\n  RetireRule = \"equal\"\n"
     )
     text += "".join(f"INVARIANT {i}\n" for i in ("TypeOK", "Conservation", "AtMostOnce", "Accounted", "KindAndStep", "PassThrough", "Fifo", "ArgPristine"))
     text += "PROPERTY WriteOnce\n"
@@ -293,13 +311,14 @@ DISTINCT = set()
 
 def alone_key(job, i):
     vc = (job.get("vclass") or [""] * job["n"])[i - 1]
-    return (job.get("family", "seqs"), (job.get("step3") or "") + "/" + (job.get("step2") or ""), job["writer"], job["inputs"], tuple(job["plan"][i - 1]), vc, i)
+    names = (job["naming"],) + tuple(job["names"]) if job.get("naming", "plain") != "plain" else ()
+    return (names, job.get("family", "seqs"), (job.get("step3") or "") + "/" + (job.get("step2") or ""), job["writer"], job["inputs"], tuple(job["plan"][i - 1]), vc, i)
 
 
 def count_case(job):
     """distinct non-trivial case: (mode, writer, input kind, plan, W, order) with at least one failing record"""
     if any(o != "ok" for p in job["plan"] for o in p):
-        DISTINCT.add((job.get("kind", "apply_to"), job.get("family"), job.get("step2"), job.get("step3"), bool(job.get("rev")), json.dumps(job.get("vclass")), job.get("writer"), job["inputs"], json.dumps(job["plan"]), job.get("w", 0), tuple(job.get("order") or ()), tuple(job.get("delays") or ())))
+        DISTINCT.add((job.get("kind", "apply_to"), job.get("family"), job.get("naming"), job.get("step2"), job.get("step3"), bool(job.get("rev")), json.dumps(job.get("vclass")), job.get("writer"), job["inputs"], json.dumps(job["plan"]), job.get("w", 0), tuple(job.get("order") or ()), tuple(job.get("delays") or ())))
 
 
 def judge(run, job, rec, obs, alone):
@@ -442,7 +461,7 @@ def trace_of(job, obs):
                 ev.append({"op": "Consume", "t": t, "rec": r})
     if obs["ret"] == "ok":
         ev.append({"op": "Final", "t": 0, "rec": obs["disk"]})
-    return {"plan": [list(p) for p in job["plan"]], "named": job.get("named") or [True] * n, "rev": bool(job.get("rev")), "w": w, "wtyped": impl_C14.WRITERS[job["writer"]][2], "events": ev}
+    return {"plan": [list(p) for p in job["plan"]], "named": job.get("named") or [True] * n, "rev": bool(job.get("rev")), "naming": job.get("naming") or "plain", "w": w, "wtyped": impl_C14.WRITERS[job["writer"]][2], "events": ev}
 
 
 def validate_traces(run, scratch, pairs):
@@ -463,6 +482,7 @@ def validate_traces(run, scratch, pairs):
             "SPECIFICATION TraceSpec\nCONSTANTS\n"
             f"  N = {n}\n  S = {S}\n  Ws = {{0, 1, 2, 3, 4}}\n  WriterTyped = {{TRUE, FALSE}}\n  Named = {{TRUE, FALSE}}\n"
             "  Reversed = {FALSE, TRUE}\n  FnStep = 2\n  Isolated = TRUE\n"
+            f"  Namings = {tla_value(set(NAMINGS) | {'plain'})}\n  RetireRule = \"equal\"\n"
             "INVARIANT Report\n"
         )
         res = run_tlc("Trace_ComposedApp", os.path.relpath(cfg, VERIF / "specs"), scratch, workers=1, env={"TRACE_FILE": tf, "PLAN_FILE": ""}, timeout=1200)
@@ -508,8 +528,10 @@ def start_growth_models(run, scratch, tier):
         p.write_text(text)
         return os.path.relpath(p, VERIF / "specs")
 
-    ex = ThreadPoolExecutor(3)
+    ex = ThreadPoolExecutor(5)
     return ex, {
+        "MC_ComposedApp_leak.cfg": ex.submit(run_tlc, "ComposedApp", "MC_ComposedApp_leak.cfg", scratch, workers=1, must_pass=False),
+        "MC_ComposedApp_retire.cfg": ex.submit(run_tlc, "ComposedApp", "MC_ComposedApp_retire.cfg", scratch, workers=1, must_pass=False),
         "runs-dir": ex.submit(model, run, scratch, cfg_runs("retry", True), "runs-retry(dir)", True, "ComposedAppRuns", 2),
         "runs-sqlite": ex.submit(model, run, scratch, cfg_runs("keep", False), "runs-keep(sqlite)", True, "ComposedAppRuns", 2),
         "links": ex.submit(model, run, scratch, "MC_ComposedApp_links.cfg" if tier == "quick" else "MC_ComposedApp_links_thorough.cfg", "links", True, "ComposedAppLinks", 2),
@@ -524,7 +546,7 @@ def replay_growth(run, scratch, in_dir, tier, futs):
     t0 = time.time()
     stats = {}
     runs_C14.warm_up(scratch, in_dir)
-    budgets = {"runs-dir": 150, "runs-sqlite": 50, "links": 600} if tier == "quick" else {"runs-dir": 2000, "runs-sqlite": 500, "links": 8000}
+    budgets = {"runs-dir": 100, "runs-sqlite": 30, "links": 300} if tier == "quick" else {"runs-dir": 2000, "runs-sqlite": 500, "links": 8000}
     for name, kind in (("runs-dir", "dir"), ("runs-sqlite", "sqlite")):
         recs = futs[name].result()
         if tier == "quick":
@@ -561,7 +583,7 @@ def index_records(recs):
     for r in recs:
         plan = tuple(tuple(p) for p in r["plan"])
         if r["act"] == "Serial":
-            ser[(r["n"], plan, r["wtyped"], tuple(r["named"]), bool(r["rev"]))] = r
+            ser[(r["n"], plan, r["wtyped"], tuple(r["named"]), bool(r["rev"]), r["naming"])] = r
         elif not r["rev"]:
             par[(r["n"], r["w"], tuple(r["order"]))].append(r)
     return ser, par
@@ -587,8 +609,11 @@ def build_parallel_jobs(run, tier, par, cover, in_dir, jid, rnd):
         n, w, order = c
         byplan = defaultdict(dict)
         mixed = []
+        related = []
         for r in par[c]:
-            if all(r["named"]):
+            if r["naming"] != "plain":
+                related.append(r)
+            elif all(r["named"]):
                 byplan[tuple(tuple(p) for p in r["plan"])][r["wtyped"]] = r
             else:
                 mixed.append(r)
@@ -620,6 +645,14 @@ def build_parallel_jobs(run, tier, par, cover, in_dir, jid, rnd):
             nmixed += 1
             pjobs[jid] = ({"id": jid, "n": n, "plan": [list(p) for p in r["plan"]], "named": list(r["named"]), "w": w, "order": list(order), "family": family, "vclass": vc, "step3": step3_of(tier, k) if family == "values" else None, "writer": writer, "inputs": ("member", "path")[k % 2], "in_dir": str(in_dir)}, r)
         cursor[("mixed", n)] += 3
+        # behaviours whose inputs have related identifiers (thorough, n = 3): any completion order
+        related.sort(key=lambda r: (r["naming"], r["plan"], r["wtyped"]))
+        for r in related[cursor[("related", n)] % 11 :: max(1, len(related) // 5)][:5]:
+            k += 1
+            writer = ("write_seqs", "write_seqs_sqlite")[k % 4 == 3] if r["wtyped"] else ("write_json", "write_db", "write_json_sqlite")[k % 3]
+            jid += 1
+            pjobs[jid] = ({"id": jid, "n": n, "plan": [list(p) for p in r["plan"]], "named": list(r["named"]), "naming": r["naming"], "names": r["names"], "w": w, "order": list(order), "family": "seqs", "step2": "fn" if k % 2 else None, "vclass": named_wrong_classes([tuple(p) for p in r["plan"]], k), "writer": writer, "inputs": ("member", "path")[k % 2], "in_dir": in_dir_of(in_dir, {"naming": r["naming"], "names": r["names"]})}, r)
+        cursor[("related", n)] += 7
     fjobs = {}
     nfree = 2 if tier == "quick" else 24
     for f in range(nfree):
@@ -655,12 +688,15 @@ def check(run: Run):
                     ("MC_ComposedApp_quick.cfg", "n2-all", True),
                     (write_cfg(scratch, "MC_n3_pairwise.cfg", 3, [0, 1, 2, 3], [True, False], plans3), "n3-pairwise", True),
                     (("MC_ComposedApp_live.cfg", live), "liveness", False),
+                    # identifiers related by suffix / prefix / containing dots (serial order)
+                    (write_cfg(scratch, "MC_n3_names.cfg", 3, [0], [True, False], plans3[::2], namings=NAMINGS), "n3-names", True),
                 ]
                 _, par4 = index_records(recs4)
                 # forced schedules for n = 4 start now and run beside the rest of the work
                 pjobs, fjobs, nclasses, jid = build_parallel_jobs(run, tier, par4, {4: plans4}, in_dir, 10**6, rnd)
                 masters = Masters([j for j, _ in pjobs.values()] + list(fjobs.values()), scratch, "par", NMASTERS_QUICK)
                 recs = recs4 + models(run, scratch, rest, 4)
+                prepare_namings(in_dir, recs)
                 ser, par = index_records(recs)
             else:
                 recs = models(
@@ -670,17 +706,22 @@ def check(run: Run):
                         ("MC_ComposedApp_thorough.cfg", "n3-all", True),
                         (write_cfg(scratch, "MC_n4_pairwise.cfg", 4, [0, 1, 2, 3], [True, False], plans4), "n4-pairwise", True),
                         (("MC_ComposedApp_live.cfg", live), "liveness", False),
+                        (write_cfg(scratch, "MC_n3_names.cfg", 3, [0, 2, 3], [True, False], plans3, namings=NAMINGS), "n3-names", True),
                     ],
                     4,
                 )
+                prepare_namings(in_dir, recs)
                 ser, par = index_records(recs)
                 pjobs, fjobs, nclasses, jid = build_parallel_jobs(run, tier, par, {2: plans2, 3: plans3, 4: plans4}, in_dir, 10**6, rnd)
                 masters = Masters([j for j, _ in pjobs.values()] + list(fjobs.values()), scratch, "par", NMASTERS)
             # design-level counterexample: one shared copy of the step's arguments breaks ArgPristine
-            leak = run_tlc("ComposedApp", "MC_ComposedApp_leak.cfg", scratch, workers=1, must_pass=False)
-            if not (leak.violated and "ArgPristine" in leak.out):
-                raise MachineryError("TLC did not refute ArgPristine for Isolated = FALSE:\n" + leak.out[-1500:])
-            run.note("design_counterexample", "MC_ComposedApp_leak.cfg (Isolated = FALSE): invariant ArgPristine violated, as expected")
+            # and: retiring not-completed records by identifier suffix breaks Accounted
+            for cfg, inv in (("MC_ComposedApp_leak.cfg", "ArgPristine"), ("MC_ComposedApp_retire.cfg", "Accounted")):
+                cx = gfuts[cfg].result()
+                if not (cx.violated and inv in cx.out):
+                    raise MachineryError(f"TLC did not refute {inv} in {cfg}:\n" + cx.out[-1500:])
+            run.note("design_counterexamples", "MC_ComposedApp_leak.cfg (Isolated = FALSE): ArgPristine violated; MC_ComposedApp_retire.cfg (RetireRule = suffix): Accounted violated - as expected")
+
             run.note("behaviours", {"serial": len(ser), "parallel_order_classes": len(par), "parallel": sum(len(v) for v in par.values()), "tlc_wall_s": round(time.time() - t0, 1)})
 
             # --------------------------------------------------------- serial replays
@@ -690,14 +731,19 @@ def check(run: Run):
             def add(job, rec):
                 nonlocal jid
                 jid += 1
-                job.update(id=jid, in_dir=str(in_dir))
+                job.update(id=jid, in_dir=in_dir_of(in_dir, job))
                 jobs.append(job)
                 serial_jobs[jid] = (job, rec)
 
             wfor = lambda k: ("write_json", "write_db")[k % 2]
-            for k, ((n, plan, typed, named, rev), rec) in enumerate(sorted(ser.items(), key=lambda kv: kv[0])):
+            for k, ((n, plan, typed, named, rev, naming), rec) in enumerate(sorted(ser.items(), key=lambda kv: kv[0])):
                 lplan = [list(p) for p in plan]
-                base = {"n": n, "plan": lplan, "named": list(named), "w": 0, "order": []}
+                base = {"n": n, "plan": lplan, "named": list(named), "w": 0, "order": [], "naming": naming, "names": rec["names"]}
+                if naming != "plain":
+                    # identifiers related to each other: directory and sqlite stores
+                    writer = ("write_seqs", "write_seqs_sqlite")[k % 4 == 3] if typed else ("write_json", "write_db", "write_json_sqlite")[k % 3]
+                    add(dict(base, family="seqs", step2="fn" if k % 2 else None, vclass=named_wrong_classes(plan, k), writer=writer, inputs=("member", "path")[k % 2]), rec)
+                    continue
                 if rev:
                     # the same records handed over in reversed order: function style step 2 (its
                     # mutable arguments must not carry anything from one record to the next)
@@ -735,16 +781,18 @@ def check(run: Run):
             alone_keys = {}
             need = set()
             for job, _ in list(serial_jobs.values()) + list(pjobs.values()):
-                if job.get("kind") != "as_completed":
+                if job.get("kind") != "as_completed" and not (tier == "quick" and job.get("naming", "plain") != "plain"):
                     need.update(alone_key(job, i + 1) for i in range(job["n"]))
             for key in sorted(need):
-                family, s3, writer, inputs, prof, vcls, i = key
+                names, family, s3, writer, inputs, prof, vcls, i = key
+                naming, names = (names[0], names[1:]) if names else ("plain", ())
                 jid += 1
-                plan = [list(PROFILES[0])] * 4
+                na = len(names) or 4
+                plan = [list(PROFILES[0])] * na
                 plan[i - 1] = list(prof)
-                vc = ["seqs" if family == "values" else ""] * 4
+                vc = ["seqs" if family == "values" else ""] * na
                 vc[i - 1] = vcls
-                jobs.append({"id": jid, "n": 4, "plan": plan, "w": 0, "order": [], "family": family, "step3": s3.split("/")[0] or None, "step2": s3.split("/")[1] or None, "vclass": vc, "writer": writer, "inputs": inputs, "subset": [i], "in_dir": str(in_dir)})
+                jobs.append({"id": jid, "n": na, "naming": naming, "names": list(names) or None, "plan": plan, "w": 0, "order": [], "family": family, "step3": s3.split("/")[0] or None, "step2": s3.split("/")[1] or None, "vclass": vc, "writer": writer, "inputs": inputs, "subset": [i], "in_dir": in_dir_of(in_dir, {"naming": naming, "names": names})})
                 alone_keys[jid] = key
             t0 = time.time()
             obs_all = run_serial_jobs(jobs, scratch)
